@@ -18,7 +18,7 @@ instance (a : Agent) (m : Msg) : Decidable (AuthRequest a m) := by unfold AuthRe
 /-- the peer-reflexive candidate `handleInbound` builds for an unknown source -/
 def prflxCand (l : Cand) (src : Nat) (m : Msg) : Cand :=
   { uid := 0, ty := 3, net := l.net, addr := src, comp := l.comp, rel := some 0,
-    prio := match m.prio with | some p => if p == 0 then prflxPriority l.comp else p | none => prflxPriority l.comp }
+    prio := match m.prio with | some p => if p == 0 then prflxPriority l.net l.comp else p | none => prflxPriority l.net l.comp }
 
 /-- Source resolution of an authenticated request: the known remote candidate with this transport address,
 else a peer-reflexive candidate added through `addRemoteCandidate` (which the remote filter may reject). -/
@@ -349,7 +349,11 @@ theorem core_step (a : Agent) (ev : Ev) :
       | _ => a.core := by
   cases ev with
   | addLocal now c => simp [step]
-  | addRemote now c => simp only [step]; split <;> simp
+  | addRemote now c =>
+    simp only [step]
+    split
+    · simp
+    · split <;> simp
   | start now c ru rp =>
     simp only [step]
     by_cases h1 : a.closed = true
